@@ -21,6 +21,8 @@ RULE = ('2-ceilometer scenes x all 72 injective maps and 3-ceilometer scenes x a
 ASSUMPTIONS = ['rows keep their order; only the ceilo column (and the exclusion list) is renamed']
 
 POOL = ['a', 'B', '10', '9', '', ' ', 'A', 'AB', 'x' * 50]
+# names that some helper might parse instead of comparing (regex metacharacters, list separators, missing-value look-alikes)
+ODD_POOL = ['CL31+', 'CL31', 'a.b', 'a_b', '(x)', 'nan', 'a,b', '\\d']
 
 
 def micro_scenes():
@@ -41,6 +43,13 @@ def micro_scenes():
         dt = 0.0 - 15.0 * (8 - i)
         rows.append(['a', dt, 1000.0, 1]); rows.append(['b', dt + 5.0, 1010.0 + i, 1]); rows.append(['c', dt, 3000.0 + 11 * i, 1])
     out.append(('three-offset', {'gen': 'rows', 'rows': rows}))
+    rows = []
+    for i in range(20):
+        dt = 0.0 - 15.0 * (19 - i)
+        rows.append(['a', dt, 1000.0 + 5 * i, 1]); rows.append(['b', dt, 1104.0 + 5 * i, 1]); rows.append(['c', dt, 1050.0 + 5 * i, 1])
+        if i % 5 == 0:
+            rows.append(['b', dt, 9000.0, 2])
+    out.append(('msa-crop-sim3', {'gen': 'rows', 'rows': rows, 'prms': {'MSA': 5000, 'MSA_HIT_BUFFER': 1500}}))
     return out
 
 
@@ -56,10 +65,10 @@ def cases(tier):
     for name, spec in two:
         for lb in ((100, 30) if tier == 'quick' else (100, 50, 30)):
             out.append({'fam': 'two', 'name': name, 'scene': spec, 'lookback': lb})
-    three = [micro_scenes()[2], ('3c:split', _deckfam.D({'h': 1500., 'n': 30, 'pattern': 'jitter'}, {'h': 1950., 'n': 30, 'pattern': 'jitter'},
+    three = [micro_scenes()[2], micro_scenes()[3], ('3c:split', _deckfam.D({'h': 1500., 'n': 30, 'pattern': 'jitter'}, {'h': 1950., 'n': 30, 'pattern': 'jitter'},
                                                          T=30, ceilos=['a', 'b', 'c'], ceilo_offsets=[0., 10., -10.]))]
     for name, spec in three:
-        for lb in ((50,) if tier == 'quick' else (100, 50, 30)):
+        for lb in ((50, 15) if tier == 'quick' and name == 'msa-crop-sim3' else (50,) if tier == 'quick' else (100, 50, 30, 15)):
             for part in range(4):
                 out.append({'fam': 'three', 'name': name, 'scene': spec, 'lookback': lb, 'part': part, 'tier': tier})
     wn = scenes.witness_names()
@@ -104,6 +113,8 @@ def run_case(case):
         excls = [[], [names[0]]]
     else:
         maps = [dict(zip(names, img)) for img in itertools.permutations(POOL, len(names))]
+        if len(names) == 2 and case['lookback'] == 100:
+            maps += [dict(zip(names, img)) for img in itertools.permutations(ODD_POOL, 2)]
         if case['fam'] == 'three':
             maps = maps[case['part']::4]
         excls = [[]] + [[n] for n in names]
@@ -112,6 +123,7 @@ def run_case(case):
     sim = len({(r[1]) for r in rows}) < len(rows)
     for excl in excls:
         prms = {'BASE_LVL_LOOKBACK_PERC': lb}
+        prms.update(case['scene'].get('prms', {}))
         if excl:
             prms['EXCLUDE_FOR_BASE_HEIGHT_CALC'] = excl
         ref, r0 = observe(rows, prms)
